@@ -528,6 +528,12 @@ class LogixController(Module):
             return build_mr_reply(svc, ST_PATH_DEST)
         inst_seg = [s for s in req.path if s[:2] == ("logical", "instance")]
         start = inst_seg[0][2] if inst_seg else 0
+        tail = [s for s in req.path if s[0] != "symbol"]
+        if not (len(tail) == 2 and tail[0][:3] == ("logical", "class", 0x6B) and tail[1][:2] == ("logical", "instance")
+                and len(req.path) - len(tail) == (1 if scope is not None else 0)):
+            world.hits.hit("C09", "path.denotes", f"symbol-list request path {req.path} is not [Program symbol,] class 0x6B, "
+                           f"instance N", kind="symbol_list", rw="r", unresolved=False)
+            return build_mr_reply(svc, ST_PATH_SEG)
         d = req.data
         if len(d) < 2:
             return build_mr_reply(svc, ST_NOT_ENOUGH)
